@@ -247,7 +247,7 @@ If `work` returns "ok", the authoritative status afterwards lists the request's 
 theorem work_ok_records {ok : Sys → Action → Prop} {j0 : JobObj} {s : Sys} (hr : Reach ok j0 s) (jo : JobObj)
     (hc : s.jobCache = some jo) (hjob : s.job = some jo)
     (hst : isStarted jo.job = true) (hnd : isDeleted jo.job = false) (hcan : canCreateTask jo.job = true)
-    (hncomp : (refreshedSummary s jo.job (tasks0 s jo.job)).complete = false)
+    (hncomp : (refreshedSummary s jo.job (tasks0 s jo jo.job)).complete = false)
     (reqs : List CreationRequest) (r : CreationRequest)
     (hreqs : computeMissingIndexesForCreation s.d jo.job (jo.job.indexes s.d) = some reqs) (hrm : r ∈ reqs)
     (hdue : reqDueNow s.clock r)
@@ -281,25 +281,25 @@ theorem work_ok_records {ok : Sys → Action → Prop} {j0 : JobObj} {s : Sys} (
     exact hstage'.symm
   -- the tasks after the creation step are well-formed
   have htok : ∀ t ∈ tasks1, TaskOK t := by
-    have hsp := (syncCreateTasks_spec (passStart s q1) jo (passStart s q1) (tasks0 (passStart s q1) jo.job) hst hnd
-      (tasksForRefs_ok _ _) (CreatePhase.refl _)).2
+    have hsp := (syncCreateTasks_spec (passStart s q1) jo (passStart s q1) (tasks0 (passStart s q1) jo jo.job) hst hnd
+      (tasksForRefs_ok _ _ _) (CreatePhase.refl _)).2
     rw [hct] at hsp
     exact (hsp rj1 tasks1 rfl).2
   -- the creation loop ran and returned `tasks1`
-  have hloop : ∃ rjL minE, (createLoop jo reqs (passStart s q1) jo.job (tasks0 (passStart s q1) jo.job) none).2 =
+  have hloop : ∃ rjL minE, (createLoop jo reqs (passStart s q1) jo.job (tasks0 (passStart s q1) jo jo.job) none).2 =
       some (rjL, tasks1, minE) := by
     rw [syncCreateTasks_eq] at hct
     have h1 : ¬ (!canCreateTask jo.job) = true := by simp [hcan]
     rw [if_neg h1] at hct
-    have h2 : ¬ (refreshedSummary (passStart s q1) jo.job (tasks0 (passStart s q1) jo.job)).complete = true := by
-      have : (refreshedSummary (passStart s q1) jo.job (tasks0 (passStart s q1) jo.job)).complete = false := hncomp
+    have h2 : ¬ (refreshedSummary (passStart s q1) jo.job (tasks0 (passStart s q1) jo jo.job)).complete = true := by
+      have : (refreshedSummary (passStart s q1) jo.job (tasks0 (passStart s q1) jo jo.job)).complete = false := hncomp
       rw [this]; simp
     rw [if_neg h2] at hct
     have h3 : computeMissingIndexesForCreation (passStart s q1).d jo.job (jo.job.indexes (passStart s q1).d) = some reqs :=
       hreqs
     rw [h3] at hct
     simp only at hct
-    cases hl : (createLoop jo reqs (passStart s q1) jo.job (tasks0 (passStart s q1) jo.job) none).2 with
+    cases hl : (createLoop jo reqs (passStart s q1) jo.job (tasks0 (passStart s q1) jo jo.job) none).2 with
     | none => rw [hl] at hct; simp at hct
     | some pr =>
       obtain ⟨rjL, tasksL, minE⟩ := pr
